@@ -73,7 +73,10 @@ def wfProc (p : Proc N) : Bool :=
   orderOK p &&
   (allCaps p).all (fun c =>
     (p.inBoundary.filter (fun u => decide (c ∈ u.caps))).all (fun s =>
-      (routesFrom p c p.allUnits.length s).all routeLocksOK))
+      (routesFrom p c p.allUnits.length s).all routeLocksOK)) &&
+  -- connections form a graph, not a multigraph: no unit lists a predecessor twice (with a repeated predecessor
+  -- the real code raises IndexError in `_clr_src_units`; excluded point recorded in DESIGN.md)
+  p.dests.all (fun d => decide d.preds.Nodup)
 
 /-! ## reading a diagram -/
 
